@@ -80,22 +80,7 @@ func c07R1(a *A, r *Roles) {
 	a.hold(rule, "announce@"+r.Prepare.Name(), w.posOf(exec), "Exec(SET @master_binlog_checksum=@@global.binlog_checksum)")
 	if r.Prepare == r.NewConn {
 		// the constructor announces by itself: a connection is handed out only on the nil edge of the Exec's error
-		ok := true
-		for _, ret := range returnsOf(r.NewConn) {
-			if isNilConst(ret.Results[0]) {
-				continue
-			}
-			good := false
-			for _, ce := range dominatingConds(ret.Block()) {
-				x, nonNilOnTrue, isT := nilTest(ce.Cond)
-				if isT && x == ssa.Value(exec) && ce.Val != nonNilOnTrue {
-					good = true
-				}
-			}
-			if !good {
-				ok = false
-			}
-		}
+		ok := handsOutOnlyAfter(r.NewConn, exec)
 		a.check(ok, rule, "announce-path@"+r.NewConn.Name(), w.posOf(exec), "a connection is handed out only after the announcement succeeded", "a connection can be handed out without (or despite a failed) checksum announcement: the dump is requested anyway")
 		c07DumpAfterCtor(a, r)
 		return
@@ -149,22 +134,7 @@ func c07R1(a *A, r *Roles) {
 			"neither the connection constructor nor Stream runs the checksum announcement on every path to the dump request (skipped, conditional, or its failure ignored): the master is asked to dump to a connection that never announced checksum awareness")
 		return
 	}
-	ok := true
-	for _, ret := range returnsOf(r.NewConn) {
-		if isNilConst(ret.Results[0]) {
-			continue // no connection handed out
-		}
-		good := false
-		for _, ce := range dominatingConds(ret.Block()) {
-			x, nonNilOnTrue, isT := nilTest(ce.Cond)
-			if isT && x == ssa.Value(prep) && ce.Val != nonNilOnTrue {
-				good = true
-			}
-		}
-		if !good {
-			ok = false
-		}
-	}
+	ok := handsOutOnlyAfter(r.NewConn, prep)
 	a.check(ok, rule, "announce-path@"+r.NewConn.Name(), w.posOf(prep), "a connection is handed out only after the announcement succeeded", "a connection can be handed out without (or despite a failed) checksum announcement: the dump is requested anyway")
 	c07DumpAfterCtor(a, r)
 }
@@ -406,4 +376,51 @@ func isPositionGetter(w *World, f *ssa.Function) bool {
 		field = fieldName(fa)
 	}
 	return len(rets) > 0
+}
+
+
+// handsOutOnlyAfter: every way a return of f yields a non-nil first result (directly, or as an alternative of a phi) is
+// reached on the nil edge of a nil test of gate (the error of the announcement).
+func handsOutOnlyAfter(f *ssa.Function, gate ssa.Value) bool {
+	okAll := true
+	onNilEdge := func(b *ssa.BasicBlock, succ *ssa.BasicBlock) bool {
+		conds := dominatingConds(b)
+		if iff, ok := lastInstr(b).(*ssa.If); ok && succ != nil && b.Succs[0] != b.Succs[1] {
+			c, val := iff.Cond, b.Succs[0] == succ
+			for {
+				u, isNot := c.(*ssa.UnOp)
+				if !isNot || u.Op != token.NOT {
+					break
+				}
+				c, val = u.X, !val
+			}
+			conds = append(conds, condEdge{iff, c, val})
+		}
+		for _, ce := range conds {
+			x, nonNilOnTrue, isT := nilTest(ce.Cond)
+			if isT && x == gate && ce.Val != nonNilOnTrue {
+				return true
+			}
+		}
+		return false
+	}
+	var walk func(v ssa.Value, at *ssa.BasicBlock, succ *ssa.BasicBlock, d int)
+	walk = func(v ssa.Value, at *ssa.BasicBlock, succ *ssa.BasicBlock, d int) {
+		if isNilConst(v) {
+			return
+		}
+		if phi, ok := v.(*ssa.Phi); ok && d < 4 {
+			for i, e := range phi.Edges {
+				walk(e, phi.Block().Preds[i], phi.Block(), d+1)
+			}
+			return
+		}
+		if !onNilEdge(at, succ) {
+			okAll = false
+		}
+	}
+	for _, ret := range returnsOf(f) {
+		walk(ret.Results[0], ret.Block(), nil, 0)
+	}
+	return okAll
 }
